@@ -3,7 +3,9 @@
    has the form  td/info/x  or  td/files/x  where
      - td is a trash directory of the expected shape: the home trash of the environment, a --trash-dir
        given by the user, <volume>/.Trash/<uid> or <volume>/.Trash-<uid>  (td_shape), written without
-       trailing slash (clean),
+       trailing slash (clean); with --all-users (eo_all_users = Some password database): the home trash
+       <pw_dir>/.local/share/Trash and <volume>/.Trash/<pw_uid>, <volume>/.Trash-<pw_uid> of every entry of
+       the database, and of nobody else (eo_homes, eo_uids),
      - x is ONE directory-entry name: not empty, no '/', not "." and not ".."  (valid_name);
    and no other mutating operation (makedirs, create, write, move) is issued at all.
    The file-system half (os.remove never follows a symlink; shutil.rmtree refuses a symlink and unlinks
@@ -14,12 +16,12 @@ From TV Require Import Prelude.Str Prelude.PosixPath Prog.Prog Cmd.Put Cmd.Scan 
 Open Scope N_scope.
 
 Theorem empty_targets_inside : forall o, Forall clean (eo_trash_dirs o) ->
-  all_runs (fun t _ => Forall (fun p => purge_ok (eo_environ o) (eo_uid o) (eo_trash_dirs o) (fst p)) t) (empty_main o).
+  all_runs (fun t _ => Forall (fun p => purge_ok (eo_homes o) (eo_uids o) (eo_trash_dirs o) (fst p)) t) (empty_main o).
 Proof. exact empty_targets_inside_lemma. Qed.
 Print Assumptions empty_targets_inside.
 
 Theorem rm_targets_inside : forall o,
-  all_runs (fun t _ => Forall (fun p => purge_ok (ro_environ o) (ro_uid o) [] (fst p)) t) (rm_main o).
+  all_runs (fun t _ => Forall (fun p => purge_ok (home_trash_dir_path_from_env (ro_environ o)) [ro_uid o] [] (fst p)) t) (rm_main o).
 Proof. exact rm_targets_inside_lemma. Qed.
 Print Assumptions rm_targets_inside.
 
@@ -40,14 +42,14 @@ Print Assumptions payload_path_of_info.
    shape, x one entry name - holds exactly what it held before; and nothing at all is created. *)
 Theorem empty_changes_nothing_outside : forall o, Forall clean (eo_trash_dirs o) ->
   all_runs (fun t _ => forall q,
-      (forall td p, td_shape (eo_environ o) (eo_uid o) (eo_trash_dirs o) td -> clean td -> target_in td p -> under p q = false) ->
+      (forall td p, td_shape (eo_homes o) (eo_uids o) (eo_trash_dirs o) td -> clean td -> target_in td p -> under p q = false) ->
       forall s s', wrun s t s' -> wfs s' q = wfs s q) (empty_main o).
 Proof. exact empty_world_frame_lemma. Qed.
 Print Assumptions empty_changes_nothing_outside.
 
 Theorem rm_changes_nothing_outside : forall o,
   all_runs (fun t _ => forall q,
-      (forall td p, td_shape (ro_environ o) (ro_uid o) [] td -> clean td -> target_in td p -> under p q = false) ->
+      (forall td p, td_shape (home_trash_dir_path_from_env (ro_environ o)) [ro_uid o] [] td -> clean td -> target_in td p -> under p q = false) ->
       forall s s', wrun s t s' -> wfs s' q = wfs s q) (rm_main o).
 Proof. exact rm_world_frame_lemma. Qed.
 Print Assumptions rm_changes_nothing_outside.
@@ -58,6 +60,16 @@ Proof. exact purge_creates_nothing. Qed.
 Print Assumptions purge_creates_nothing.
 
 (* ---- non-vacuity ---- *)
+Example all_users_shape :
+  let o := mkempty [] (Some false) None false 0 [($"HOME", $"/root")] 0 (Some [($"/home/u", 1000); ($"/home/other", 1001)]) in
+  eo_homes o = [$"/home/u/.local/share/Trash"; $"/home/other/.local/share/Trash"] /\ eo_uids o = [1000; 1001]
+  /\ td_shape (eo_homes o) (eo_uids o) [] ($"/media/stick/.Trash/1001")
+  /\ ~ In ($"/root/.local/share/Trash") (eo_homes o).
+Proof.
+  split; [reflexivity|split; [reflexivity|split]].
+  - right; right. exists ($"/media/stick"), 1001. split; [right; left; reflexivity|left; reflexivity].
+  - simpl. intros [H|[H|[]]]; discriminate.
+Qed.
 Example clean_home : clean ($"/home/u/.local/share/Trash").
 Proof. split; [discriminate|reflexivity]. Qed.
 Example dot_names_are_not_entries :
